@@ -147,6 +147,11 @@ func (l *loginInboundConn) handleLoginPluginResponse(res *packet.LoginPluginResp
 	l.mu.Lock()
 	done := len(l.outstandingResponses) == 0
 	onAllMessagesHandled := l.onAllMessagesHandled
+	if done {
+		// The completion callback runs exactly once, also if a message is sent
+		// and answered after the login already completed.
+		l.onAllMessagesHandled = nil
+	}
 	l.mu.Unlock()
 	if done && onAllMessagesHandled != nil {
 		err = errors.Join(err, onAllMessagesHandled())
@@ -157,10 +162,13 @@ func (l *loginInboundConn) handleLoginPluginResponse(res *packet.LoginPluginResp
 func (l *loginInboundConn) loginEventFired(onAllMessagesHandled func() error) error {
 	l.mu.Lock()
 	l.isLoginEventFired = true
-	l.onAllMessagesHandled = onAllMessagesHandled
 	msgs := make([]*packet.LoginPluginMessage, 0, l.loginMessagesToSend.Len())
 	for l.loginMessagesToSend.Len() != 0 {
 		msgs = append(msgs, l.loginMessagesToSend.PopFront())
+	}
+	if len(msgs) != 0 {
+		// completed by the response to the last outstanding message
+		l.onAllMessagesHandled = onAllMessagesHandled
 	}
 	l.mu.Unlock()
 
